@@ -14,6 +14,13 @@ def handle (line : String) : String :=
       let m : LMat CFloat := Gate.matrixAt store (g.mapP fun _ => Param.reference 0)
       if m.isEmpty then "panic" else "ok " ++ showMat m
     | _ => "bad-op"
+  | "matrixlive" :: _kinds :: rest =>
+    -- parameters that were references / pointers hold, at evaluation time, the values on the request line
+    match parseGate rest with
+    | some (g, []) =>
+      let m : LMat CFloat := Gate.matrix g
+      if m.isEmpty then "panic" else "ok " ++ showMat m
+    | _ => "bad-op"
   | "matrix" :: rest =>
     match parseGate rest with
     | some (g, []) =>
@@ -40,8 +47,8 @@ def specCheck (line : String) : String :=
   | [req, ans] =>
     match words req, words ans with
     | kind :: rest, "ok" :: n :: ent =>
-      if kind ≠ "matrix" ∧ kind ≠ "matrixref" then "skip" else
-      match parseGate rest, n.toNat?, parseVec ent with
+      if kind ≠ "matrix" ∧ kind ≠ "matrixref" ∧ kind ≠ "matrixlive" then "skip" else
+      match parseGate (if kind = "matrixlive" then rest.drop 1 else rest), n.toNat?, parseVec ent with
       | some (g, []), some n, some v =>
         let m := unflat n v
         let ref : LMat CFloat := Spec.specMatrix g
